@@ -282,7 +282,8 @@ type streamOpts struct {
 	Tables      bool // PAT + PMT units
 	Fillers     bool // null / AF-only / TEI packets in between
 	SmallChunks bool
-	Repeats     int // how many times PAT/PMT are repeated
+	Repeats     int  // how many times PAT/PMT are repeated
+	NearPIDs    bool // PES PIDs that differ in one bit from each other (and 0x0fff next to null packets)
 }
 
 // genRefStream builds a well-formed stream: PAT first, then PMTs, PES units interleaved.
@@ -303,6 +304,15 @@ func genRefStream(r *Rng, o streamOpts) *refStreamModel {
 	pesPIDs := []uint16{}
 	for k := 0; k < o.PESPIDs; k++ {
 		pid := uint16(0x100 + r.Intn(0x1e00))
+		if o.NearPIDs && k > 0 {
+			// PIDs that differ from an earlier one in a single bit (a wrong mask on a map key would merge them)
+			pid = pesPIDs[r.Intn(len(pesPIDs))] ^ uint16(1<<uint(r.Intn(13)))
+			if pid < 0x20 || pid == 0x1fff {
+				pid = uint16(0x100 + r.Intn(0x1e00))
+			}
+		} else if o.NearPIDs {
+			pid = []uint16{0x0fff, 0x0100, 0x1100, 0x0101}[r.Intn(4)]
+		}
 		if pid == 0x1000 || pid == 0x1001 {
 			pid = 0x120
 		}
